@@ -12,7 +12,6 @@ pub fn def() -> PropDef {
         assumptions: BASE_ASSUMPTIONS,
         floor: |t| t.pick(10_000, 1_000_000),
         run,
-        panics_are_verdict: false,
     }
 }
 
@@ -88,6 +87,20 @@ fn run(r: &mut Run) -> Result<(), MachineryError> {
         let line = build(seq, &alpha);
         cx.set_input(&line);
         check_line(&line, cx);
+    })?;
+    // every character in fixed contexts (catches byte/char confusions and table entries that
+    // behave unlike their class representative)
+    let t2 = t;
+    r.range("C11/all-characters-in-context", &format!("{}; each in the lines \"cc\", \"acb\", \"c c\", \"a-c\", \"c-b\", \"a c\" x both separators", scalar_desc(t)), scalar_space(t), move |i, cx| {
+        let c = match scalar_at(t2, i) {
+            Some(c) if c != '\x1b' => c,
+            _ => return,
+        };
+        cx.seq = idx_seq(i);
+        for line in [format!("{c}{c}"), format!("a{c}b"), format!("{c} {c}"), format!("a-{c}"), format!("{c}-b"), format!("a {c}")] {
+            cx.set_input(&line);
+            check_line(&line, cx);
+        }
     })?;
     // deeper over the symbols that drive the state machines (spaces, hyphens, sequences, wide)
     let core = [L, SP, HY, W, SHY, CSI, OSB, TAB, ZW];
